@@ -7,11 +7,14 @@ use crate::types::strp;
 impl BoundingBox {
     pub fn xfrm_scale(&self, sx: f32, sy: f32) -> Self {
         // scale about (0, 0) - not the center of the bbox
+        let (xa, xb) = (self.x1 * sx, self.x2 * sx);
+        let (ya, yb) = (self.y1 * sy, self.y2 * sy);
+        // a negative factor mirrors the box: keep x1 <= x2 and y1 <= y2
         Self {
-            x1: self.x1 * sx,
-            y1: self.y1 * sy,
-            x2: self.x2 * sx,
-            y2: self.y2 * sy,
+            x1: xa.min(xb),
+            y1: ya.min(yb),
+            x2: xa.max(xb),
+            y2: ya.max(yb),
         }
     }
 
